@@ -79,6 +79,12 @@ LinePrefixExoticOK(x, c, ws) == LooseEq(x, StrictLP(c, ws, TRUE), TRUE)
 IsBlank(c) == c = 32 \/ c = 9 \/ c = LF \/ c = CR
 PostCuts(post) == {k \in 0..Len(post) : \A j \in 1..k : IsBlank(post[j])}
 
+RECURSIVE StripL(_)
+StripL(t) == IF t # <<>> /\ IsBlank(t[1]) THEN StripL(Tail(t)) ELSE t
+RECURSIVE StripR(_)
+StripR(t) == IF t # <<>> /\ IsBlank(t[Len(t)]) THEN StripR(SubSeq(t, 1, Len(t) - 1)) ELSE t
+Strip(t) == StripR(StripL(t))
+
 Mid(t, pre, s) == SubSeq(t, Len(pre) + 1, Len(t) - Len(s))
 
 MarkerSplitOK(m, p, pre, post, ws, exotic) ==
@@ -131,11 +137,13 @@ ChainP(cl, hasElse) == ChainFrom(cl, 1, hasElse)
 (* I-layer: UseQuery.parse builds  If(test_1, body_1, elif_ = [If(test_2, ...), ...], else_)  in a loop    *)
 (* that carries `negate` from one iteration to the next: it is set from the opening tag, then from each   *)
 (* elifuses (FALSE) / elifnuses (TRUE) tag.  tags[i] is "ifuses" | "ifnuses" | "elifuses" | "elifnuses".   *)
-RECURSIVE ParseLoop(_, _, _, _)
-ParseLoop(tags, i, negate, acc) ==
+(* reset = FALSE models the slip "elifuses does not clear the flag" (negative control of the model).            *)
+RECURSIVE ParseLoop(_, _, _, _, _)
+ParseLoop(tags, i, negate, acc, reset) ==
     IF i > Len(tags) THEN acc
-    ELSE LET n == IF tags[i] \in {"ifnuses", "elifnuses"} THEN TRUE ELSE IF tags[i] \in {"ifuses", "elifuses"} THEN FALSE ELSE negate
-         IN ParseLoop(tags, i + 1, n, Append(acc, [method |-> IF n THEN "_use_nquery" ELSE "_use_query"]))
+    ELSE LET n == IF tags[i] \in {"ifnuses", "elifnuses"} THEN TRUE
+                  ELSE IF tags[i] = "ifuses" \/ (tags[i] = "elifuses" /\ reset) THEN FALSE ELSE negate
+         IN ParseLoop(tags, i + 1, n, Append(acc, [method |-> IF n THEN "_use_nquery" ELSE "_use_query"]), reset)
 
 (* evaluation of the If node as compiler.visit_If does it: tests in order, first true wins                 *)
 RECURSIVE EvalIf(_, _, _, _)
@@ -147,8 +155,9 @@ EvalIf(node, truth, i, hasElse) ==
          IN IF v THEN i ELSE EvalIf(node, truth, i + 1, hasElse)
 
 TagOf(cl, i) == IF i = 1 THEN (IF cl[i].neg THEN "ifnuses" ELSE "ifuses") ELSE (IF cl[i].neg THEN "elifnuses" ELSE "elifuses")
-ChainI(cl, hasElse) ==
+ChainIWith(cl, hasElse, reset) ==
     LET tags == [i \in 1..Len(cl) |-> TagOf(cl, i)]
-        node == ParseLoop(tags, 1, FALSE, <<>>)
+        node == ParseLoop(tags, 1, FALSE, <<>>, reset)
     IN EvalIf(node, [i \in 1..Len(cl) |-> cl[i].q], 1, hasElse)
+ChainI(cl, hasElse) == ChainIWith(cl, hasElse, TRUE)
 =============================================================================
